@@ -175,6 +175,10 @@ pub fn run_c05(r: &mut Report) {
         if !(d1.is_ok() && d2.is_ok() && d1 != d2) { bad += 1; r.case("deep-document", json!({"depth": 100}), "different bytes", format!("{:?} {:?}", d1.as_ref().map(|x| x.len()), d2.as_ref().map(|x| x.len())), false); }
         r.case("size-classes", json!({"documents": n}), "complete, distinct encodings", format!("{} failures", bad), bad == 0);
     }
+    expiry_grid(r);
+}
+
+pub fn expiry_grid(r: &mut Report) {
     // "expiry to the second": layouts that differ only in their expiry are signed over different bytes, and the expiry that is
     // signed is the expiry that is read back (grid: year boundaries 2024-2031 +-4 days, leap day, second granularity, far dates)
     use chrono::{TimeZone, Utc, Duration};
